@@ -12,6 +12,7 @@ DEFAULT_PROFILE = dict(
     p_fault=0.2, p_link=0.15, p_crash=0.1, p_mode=0.15, depth=(3, 5), locals=(1, 2),
     strategies=("dfs", "bfs"), caches=("full", "partial", "disabled"), two_runs=0.2, staged=0.0,
     collect_always=False, same_timer_name=0.3, identical_msgs=0.3, terminating=False,
+    proc_kind="", json_payloads=False,
 )
 
 
@@ -54,14 +55,17 @@ def gen_scenario(rng, prof):
     loc = {}
     for p in procs:
         loc[p] = rng.choice(nodes)
-        lines.append(f"proc {p} {loc[p]}" + (" rec" if rng.random() < prof["record"] else ""))
+        lines.append(f"proc {p} {loc[p]}" + (" rec" if rng.random() < prof["record"] else "") +
+                     (" " + prof["proc_kind"] if prof["proc_kind"] else ""))
     tips = ["m0", "m1", "m2"][: rng.randint(1, 3)]
     timers = ["t0", "t1", "t2"][: rng.randint(1, 3)]
     if rng.random() < prof["same_timer_name"]:
         timers = timers[:1]
     datas = ["=a", "=b", '="q"', "$"]
+    if prof["json_payloads"]:
+        datas = ['="a"', "=1", '="q"', "$", "=true"]
     if rng.random() < prof["identical_msgs"]:
-        datas = ["=a"]
+        datas = [datas[0]]
 
     def action(p):
         r = rng.random()
@@ -126,7 +130,7 @@ def gen_scenario(rng, prof):
             if op == "local":
                 pp, tt = pending_locals.pop(0)
                 if loc[pp] not in crashed:
-                    out.append(f"cb local {pp} {tt} {rng.choice(['=a', '=b', chr(61) + chr(34) + 'x' + chr(34)])}")
+                    out.append(f"cb local {pp} {tt} {rng.choice(['=a', '=b', chr(61) + chr(34) + 'x' + chr(34)] if not prof['json_payloads'] else [chr(61) + chr(34) + 'x' + chr(34), '=2'])}")
             elif op == "crash":
                 n = rng.choice(nodes)
                 if n not in crashed and len(crashed) + 1 < nn:
